@@ -20,7 +20,8 @@ from fractions import Fraction
 from .poly import Poly, Lin, fn_atom, pmin, pmax, same, definitely_differ, \
     lower_bound
 from .values import AV, TOP, NONE, BOOL, INT, FLOAT, STR, ARR, LIST, TUPLE, \
-    DICT, EXT, GEN, NOCONST, from_const, join, join_all, join_dim
+    DICT, EXT, GEN, NOCONST, from_const, join, join_all, join_dim, \
+    SymKey, dict_key
 from . import model
 
 MAX_DEPTH = 9
@@ -80,6 +81,15 @@ class Effect:
         self.construct = construct
         self.stack = stack
         self.cond = cond
+
+
+class AbstractRaise(Exception):
+    """A call whose every abstract path raises: propagated to the calling
+    statement, where it becomes a 'raise' outcome."""
+
+    def __init__(self, name):
+        Exception.__init__(self, name)
+        self.name = name
 
 
 class Interp:
@@ -264,6 +274,12 @@ class Interp:
             hook = self.trace_hooks.get(fn.qualname)
             if hook:
                 hook(self, fn, outs)
+            if not entry and not rets and \
+                    any(oc.kind == 'raise' for oc in outs):
+                # every abstract path of the callee raises: the exception
+                # reaches the calling statement (no value comes back)
+                raise AbstractRaise([oc.val for oc in outs
+                                     if oc.kind == 'raise'][0])
             res = self.join_returns(rets)
             if len(self.call_log) < 20000:
                 self.call_log.append((fn.qualname, args0, res))
@@ -395,7 +411,10 @@ class Interp:
                         w = fr.fn.qualname
                         break
             _poly.EXPAND[0] = w in ein
-        return m(st, env)
+        try:
+            return m(st, env)
+        except AbstractRaise as ex:
+            return [Outcome('raise', env, ex.name)]
 
     def add_order(self, env, test, pol):
         """Record an ordering fact from an undecided integer comparison."""
@@ -1331,11 +1350,12 @@ class Interp:
             return
         if base.k == 'dict':
             self.effect('dict-write', base, st)
-            if idx.has_const() and idx.k in ('str', 'int'):
-                if self.weak > 0 and idx.c in base.keys:
-                    base.keys[idx.c] = join(base.keys[idx.c], v)
+            dk = dict_key(idx)
+            if dk is not None:
+                if self.weak > 0 and dk in base.keys:
+                    base.keys[dk] = join(base.keys[dk], v)
                 else:
-                    base.keys[idx.c] = v
+                    base.keys[dk] = v
             else:
                 base.elem = join(base.elem, v) if base.elem is not None else v
             return
@@ -1413,6 +1433,22 @@ class Interp:
                     nb.src = v.src
                     nb.taint = base.taint
                 self.rebind_array(env, target.value.id, base, nb)
+            elif isinstance(target.value, ast.Attribute) and \
+                    base.items is not None:
+                # obj.vec[k] = v  on a short integer vector kept exactly
+                obj = self.eval(target.value.value, env)
+                its = None
+                if idx.k == 'int' and idx.has_const() and v.k == 'int' and \
+                        -len(base.items) <= idx.c < len(base.items):
+                    its = list(base.items)
+                    its[idx.c] = v if self.weak == 0 else \
+                        join(its[idx.c], v)
+                nb = base.copy(items=its, note=None, nonneg=False)
+                if obj.k == 'obj' and obj.attrs is not None and \
+                        obj.attrs.get(target.value.attr) is base:
+                    obj.attrs[target.value.attr] = nb
+                else:
+                    base.items = its
             else:
                 self._store_into_element(target.value, base, v, env, st)
             return
@@ -1479,7 +1515,7 @@ class Interp:
                 if lb is not None and lb >= 1:
                     return True
             return None
-        if k in ('list', 'tuple', 'iter'):
+        if k in ('list', 'tuple', 'iter', 'set'):
             if v.maybe_none:
                 return None
             if v.items is not None:
@@ -1651,9 +1687,23 @@ class Interp:
         return LIST(items)
 
     def ex_Set(self, node, env):
-        for e in node.elts:
-            self.eval(e, env)
-        return AV('set')
+        return self.make_set([self.eval(e, env) for e in node.elts])
+
+    def make_set(self, vals):
+        """A set of distinct constants is kept exactly (its length and
+        truth value are decided); anything else is an opaque set."""
+        s = AV('set')
+        if vals is None:
+            return s
+        out = []
+        for v in vals:
+            if not (isinstance(v, AV) and v.k in ('int', 'str', 'bool',
+                                                  'float') and v.has_const()):
+                return s
+            if not any(o.c == v.c for o in out):
+                out.append(v)
+        s.items = out
+        return s
 
     def ex_Dict(self, node, env):
         keys = {}
@@ -1894,9 +1944,16 @@ class Interp:
                 return base.elem if base.elem is not None else TOP()
             return TOP()
         if k == 'dict':
-            if idx.has_const() and idx.k in ('str', 'int'):
-                if idx.c in base.keys:
-                    return base.keys[idx.c]
+            dk = dict_key(idx)
+            if dk is not None:
+                if dk in base.keys:
+                    return base.keys[dk]
+                if isinstance(dk, SymKey) and base.keys:
+                    # a symbolic key may coincide with any stored key
+                    vals = list(base.keys.values())
+                    if base.elem is not None:
+                        vals.append(base.elem)
+                    return join_all(vals)
                 if base.elem is not None:
                     return base.elem
                 return TOP('dict-key')
@@ -1922,7 +1979,9 @@ class Interp:
         return self.comprehension(node, env, 'list')
 
     def ex_SetComp(self, node, env):
-        self.comprehension(node, env, 'list')
+        r = self.comprehension(node, env, 'list')
+        if isinstance(r, AV) and r.k == 'list' and r.items is not None:
+            return self.make_set(r.items)
         return AV('set')
 
     def ex_DictComp(self, node, env):
